@@ -217,7 +217,20 @@ func (g *c11Gen) action() {
 		g.mutated(lx)
 		g.w("%s[%s] = %s;", x, f, v)
 	case 7: // লেন used as a number
-		switch g.pick("lenuse", 4) {
+		switch g.pick("lenuse", 8) {
+		case 4: // the count as a condition and under the logical operators: 0 is falsy like any other 0
+			g.w("%s (%s(%s)) %s \"has-elements\"; %s %s \"empty\";", bn.KwIf, bn.BLen, x, bn.KwPrint, bn.KwElse, bn.KwPrint)
+			g.w("%s !%s(%s);", bn.KwPrint, bn.BLen, x)
+		case 5:
+			g.w("%s %s(%s) %s \"none\";", bn.KwPrint, bn.BLen, x, bn.KwOr)
+			g.w("%s %s(%s) %s \"some\";", bn.KwPrint, bn.BLen, x, bn.KwAnd)
+		case 6: // drain a copy: the loop ends when the count reaches 0
+			g.w("drain = %s;", x)
+			g.w("%s (%s(drain)) { drain = %s(drain, 0); }", bn.KwWhile, bn.BLen, bn.BRemove)
+			g.w("%s %s(drain);", bn.KwPrint, bn.BLen)
+		case 7:
+			g.w("%s %s(%s(%s([], 1), 0));", bn.KwPrint, bn.BLen, bn.BRemove, bn.BPush)
+			g.w("%s (%s([])) %s \"T\"; %s %s \"F\";", bn.KwIf, bn.BLen, bn.KwPrint, bn.KwElse, bn.KwPrint)
 		case 0:
 			g.w("%s %s(%s) + 1;", bn.KwPrint, bn.BLen, x)
 		case 1:
@@ -330,6 +343,7 @@ func (g *c11Gen) program(nActions int, fault int) string {
 	g.w("%s nothing() { }", bn.KwFun)
 	g.w("%s holder = {p: nil};", bn.KwVar)
 	g.w("%s keep = [];", bn.KwVar)
+	g.w("%s drain = nil;", bn.KwVar)
 	g.w("%s mk() { %s [7, 8, 9]; }", bn.KwFun, bn.KwReturn)
 	g.w("%s mkn() { %s [[1, 2], [3]]; }", bn.KwFun, bn.KwReturn)
 	g.w("%s mkp() { %s ([5, 6]); }", bn.KwFun, bn.KwReturn)
